@@ -114,7 +114,7 @@ Proof. reflexivity. Qed.
 Example C10_nonvacuous :
   let s := mkPol 2 (mkLPS 1000 10 true 400) (mkPM 0 0 1 0 0 0 0 0 0) [] [] in
   PolSafe s /\
-  exists s', prun s [PMsg (PUpdatePmtpParams (DVal (- PREC / 2)) 2 4 7); PMsg (PModifyLPRates 2000); PBlock None; PBlock (Some (- PREC / 4)); PBlock None] = Ok s'
+  exists s', prun s [PMsg (PUpdatePmtpParams (DVal (- PREC / 2)) 2 4 7 (Some (- PREC / 4))); PMsg (PModifyLPRates 2000); PBlock None; PBlock (Some (- PREC / 4)); PBlock None] = Ok s'
     /\ lps_current (pol_lp s') = 700 /\ pm_epochs (pol_pmtp s') = 1 /\ pm_running (pol_pmtp s') = -437500000000000000.
 Proof.
   cbv zeta. split.
@@ -124,6 +124,29 @@ Proof.
     + unfold PMSafe; cbn [pol_pmtp pm_epoch_len pm_gov]. split; [lia | vm_compute; reflexivity].
   - eexists. split; [vm_compute; reflexivity|]. repeat split.
 Qed.
+
+(* ratio-shifting policies add up: each leaves its final running rate behind for the next one to start from. An accepted
+   policy of negative rate reaches, on its last block, a running rate above -1 as PolicyCalculations computes it there with
+   the block rate PolicyStart stores ([br]: PmtpPeriodBlockRate) - so 1 + rate is positive wherever block processing
+   divides by it (finding F-29: two accepted policies of rate -0.5 gave exactly -1) *)
+Theorem C10_accepted_policy_end_rate : forall s g el st en br s',
+  update_pmtp_params s g el st en br = Ok s' -> pm_gov (pol_pmtp s') < 0 ->
+  pm_inter (pol_pmtp s') = pm_inter (pol_pmtp s) /\
+  exists b, br = Some b /\
+    (0 <= b \/ exists r pm', policy_calc (pol_pmtp s' <| pm_block_rate := b |>) (pm_end (pol_pmtp s')) = Ok pm' /\
+                             pm_running pm' = r /\ - PREC < r).
+Proof.
+  intros s g el st en br s' H Hg. destruct (update_pmtp_params_end_rate _ _ _ _ _ _ _ H Hg) as (Hi & b & Hb & Hr).
+  split; [exact Hi|]. exists b. split; [exact Hb|]. destruct Hr as [Hr|(r & Hr & Hlt)]; [left; exact Hr|right].
+  destruct (policy_end_rate_is_calc _ _ _ Hr) as (pm' & Hc & Hp). exists r, pm'. auto.
+Qed.
+Print Assumptions C10_accepted_policy_end_rate.
+Example C10_f29_second_policy_refused :
+  let s := mkPol 6 (mkLPS 1000 10 true 400) (mkPM 3 3 1 (- PREC / 2) (- PREC / 2) (- PREC / 2) (- PREC / 2) 0 0) [] [] in
+  update_pmtp_params s (DVal (- PREC / 2)) 1 7 7 (Some (- PREC / 2)) = Err 5 /\
+  policy_end_rate (pol_pmtp s <| pm_start := 7 |> <| pm_end := 7 |>) (- PREC / 2) = Ok (- PREC) /\
+  exists s', update_pmtp_params s (DVal (- PREC / 4)) 1 7 7 (Some (- PREC / 4)) = Ok s'.
+Proof. vm_compute. split; [reflexivity|split; [reflexivity|eexists; reflexivity]]. Qed.
 
 (* swap-fee parameters: a message that is accepted carries a default rate and per-token rates in [0,1] only (a rate above 1
    makes the fee exceed the swapped amount: sdk.Uint underflow in the epoch hook's re-investment) *)
